@@ -5,9 +5,13 @@ go 1.21
 require (
 	github.com/BurntSushi/toml v0.0.0-00010101000000-000000000000
 	github.com/Dieterbe/go-metrics v0.0.0-20181015090856-87383909479d
+	github.com/Shopify/sarama v1.23.0
 	github.com/anishathalye/porcupine v1.3.0
+	github.com/golang/snappy v0.0.1
 	github.com/grafana/carbon-relay-ng v0.0.0
+	github.com/grafana/metrictank v1.0.1-0.20210114150051-52835b9a8775
 	github.com/kisielk/og-rek v0.0.0-20170405223746-ec792bc6e6aa
+	github.com/metrics20/go-metrics20 v0.0.0-20180821133656-717ed3a27bf9
 	github.com/sirupsen/logrus v1.1.2-0.20181020050904-08e90462da34
 	github.com/streadway/amqp v0.0.0-20170521212453-dfe15e360485
 )
@@ -16,7 +20,6 @@ require (
 	cloud.google.com/go v0.18.1-0.20180119164648-b1067c1d21b5 // indirect
 	github.com/DataDog/zstd v1.3.6-0.20190409195224-796139022798 // indirect
 	github.com/Dieterbe/artisanalhistogram v0.0.0-20170619072513-f61b7225d304 // indirect
-	github.com/Shopify/sarama v1.23.0 // indirect
 	github.com/aws/aws-sdk-go v1.15.54 // indirect
 	github.com/cespare/xxhash v0.0.0-00010101000000-000000000000 // indirect
 	github.com/davecgh/go-spew v1.1.1 // indirect
@@ -27,15 +30,12 @@ require (
 	github.com/eapache/queue v1.1.0 // indirect
 	github.com/go-ini/ini v1.38.3 // indirect
 	github.com/golang/protobuf v0.0.0-20171113180720-1e59b77b52bf // indirect
-	github.com/golang/snappy v0.0.1 // indirect
 	github.com/googleapis/gax-go v2.0.0+incompatible // indirect
 	github.com/grafana/configparser v0.0.0-20210707122942-2593eb86a3ee // indirect
-	github.com/grafana/metrictank v1.0.1-0.20210114150051-52835b9a8775 // indirect
 	github.com/hashicorp/go-uuid v1.0.1 // indirect
 	github.com/jcmturner/gofork v0.0.0-20190328161633-dc7c13fece03 // indirect
 	github.com/jmespath/go-jmespath v0.0.0-20160202185014-0b12d6b521d8 // indirect
 	github.com/jpillora/backoff v0.0.0-20160414055204-0496a6c14df0 // indirect
-	github.com/metrics20/go-metrics20 v0.0.0-20180821133656-717ed3a27bf9 // indirect
 	github.com/pelletier/go-toml v1.9.1 // indirect
 	github.com/philhofer/fwd v0.0.0-20151120024002-92647f2bd94a // indirect
 	github.com/pierrec/lz4 v0.0.0-20190327172049-315a67e90e41 // indirect
